@@ -361,3 +361,18 @@ PROPS["C01"]["assumed"] = [x for x in PROPS["C01"]["assumed"] if not x.startswit
 
 PROPS["C09"]["level_text"] = PROPS["C09"]["level_text"].replace("`test()` accepting every such file is not decided.", "`test()` accepts every such file: u9 proves it panic-free under wf_for_selftest and u23 proves wf_for_selftest for every written cache (given the watto / BTreeMap assumptions).")
 PROPS["C09"]["not_decided"] = [x for x in PROPS["C09"].get("not_decided", []) if not x.startswith("ProguardCache::test()")]
+
+# ---- after the builders came under contract (u13 / u14) and the fold got its declarative reading (u23) ----
+PROPS["C01"]["level_text"] = PROPS["C01"]["level_text"].replace(
+    "Builders (mapping text -> entries) are assumed, so this is a proof about the reader core, not end to end.",
+    "Builders: ProguardMapper::create_proguard_mapper is proved to build exactly built(records) (u13) and the cache writer's collection loop the related fold (u14, u23). "
+    "What built(records) IS, in the terms of the property statement, is a pure lemma (u23, lemma_class_content_is_what_the_records_of_its_last_block_say): under an obfuscated class name the mapper holds the class of "
+    "the LAST block with that name, with its original name; its entry list for obfuscated method m is one entry per method record named m, in file order, each carrying the numbers of `interp`, the record's "
+    "original class / name and the value of the last `sourceFile` header before it in the block; a method name is known iff the block has such a record; nothing before the block has any influence. "
+    "Record stream -> text (which lines give which records) is C05 / C06.")
+PROPS["C03"]["level_text"] = PROPS["C03"]["level_text"].replace(
+    "De-duplication and inline filtering happen in the builders (assumed).",
+    "De-duplication and inline filtering: the builders are proved to build exactly built(records) (u13; writer: u14 + the refinement of u23), and three pure lemmas (u23) read the parameter index of built(records) in the "
+    "terms of the property statement: the index of (m, a) in a class is, in file order, the FIRST occurrence of every (m, a, original name) among the method records of the class's last block that are not inlined callees "
+    "(the next record does not repeat their obfuscated range) -- so every entry comes from a record that is not an inlined callee, two entries under one (m, a) have different original names, every such record is "
+    "represented, and the de-duplication set and the entries depend on the block alone (lemma_block_from_any_state: no state leaks from the class block before). Without the parameter index (ProguardMapper::new) the index is empty.")
